@@ -290,7 +290,7 @@ class C11(PoolCheck):
         ('standalone', b'?>', b' standalone="maybe"?>'),
         # values that XPath tests of type alternatives / assertions compute with
         ('zerodiv', b'b="1"', b'b="0"'), ('hugeattr', b'a="1"', b'a="' + b'9' * 400 + b'"'), ('hugeyearattr', b'd="2020-', b'd="99999999999-'),
-        ('nanattr', b'a="1"', b'a="NaN"'),
+        ('nanattr', b'a="1"', b'a="NaN"'), ('hugeattr_facet', b'm="1"', b'm="' + b'9' * 400 + b'"'),
         # location hints that are no usable URL (followed only by the hint-following entry points)
         ('hint_dataurl', b'>', b' xmlns:xsi="http://www.w3.org/2001/XMLSchema-instance" xsi:schemaLocation="urn:x data:,x">'),
         ('hint_nul', b'>', b' xmlns:xsi="http://www.w3.org/2001/XMLSchema-instance" xsi:schemaLocation="urn:x file:///nonexistent/%00">'),
